@@ -202,13 +202,17 @@ Cont(pid) ==
        /\ Emit(units, pid, u, t, off, n, FALSE, sl, f)
        /\ UNCHANGED <<uid, units, nunits>>
 
-\* stuffing packets between the units' packets (C07): null packets, adaptation-only and transport-error packets of a PID
+\* stuffing packets between the units' packets (C07): null packets, adaptation-only and transport-error packets naming a PID.
+\* Only the observed demuxer receives them; the clean twin sees the stream without them.
 Insert(k, pid) ==
   /\ npk < MaxPkts /\ k \in Faults
-  /\ LET p == [pid |-> (IF k = "null" THEN 8191 ELSE pid), cc |-> (gcc[pid] + 15) % 16, pusi |-> FALSE, u |-> 0, off |-> 0, n |-> 0, sl |-> FALSE, k |-> k, disc |-> FALSE]
-     IN Channel(units, p, "none")
+  /\ \E c \in {(gcc[pid] + 15) % 16, (gcc[pid] + 3) % 16} :                     \* the PID's last counter (as ISO asks), or an arbitrary one
+       LET p == [pid |-> (IF k = "null" THEN 8191 ELSE pid), cc |-> c, pusi |-> FALSE, u |-> 0, off |-> 0, n |-> 0, sl |-> FALSE, k |-> k, disc |-> FALSE]
+           d == Feed(units, acc, pm, delivered, nread, p)
+       IN /\ acc' = d.acc /\ pm' = d.pm /\ delivered' = d.delivered /\ nread' = d.nread
+          /\ hist' = Append(hist, p @@ [ins |-> TRUE])
   /\ npk' = npk + 1
-  /\ UNCHANGED <<cur, gcc, nunits, uid, units, lastpkt, patDone, hit>>
+  /\ UNCHANGED <<cur, gcc, nunits, uid, units, lastpkt, patDone, hit, nfault, dropRun, cvars>>
 
 Next ==
   \/ \E pid \in PIDs : Start(pid) \/ Cont(pid)
@@ -251,8 +255,9 @@ C06_LossSafe == (Quiescent /\ LossDomain) => \A pid \in PIDs :
                    LET f == Ids(PerPid(FinalF, pid)) c == Ids(PerPid(FinalC, pid)) IN
                    /\ \A i \in DOMAIN f : \E j \in DOMAIN c : f[i] = c[j]
                    /\ \A j \in DOMAIN c : (\E i \in DOMAIN f : f[i] = c[j]) \/ c[j][2] \in hit
-\* C07: a PID's deliveries depend on its own packets only - per construction of Feed (one accumulator per PID); the program map
-\* is the only shared state, hence the side condition "PAT before PMT" in Start.
+\* C07: a PID's deliveries depend on its own packets only.  Interleavings are explored by Next itself (any PID may move);
+\* inserted null / adaptation-only / transport-error packets must leave every PID's deliveries unchanged:
+C07_InsertHarmless == (Quiescent /\ nfault = 0) => \A pid \in PIDs : Ids(PerPid(FinalF, pid)) = Ids(PerPid(FinalC, pid))
 
 View == <<cur, gcc, nunits, patDone, npk, nfault, dropRun, acc, pm, accC, pmC, hit, [i \in DOMAIN units |-> <<units[i].pid, units[i].tmpl, units[i].early>>]>>
 \* what the model says the clean demuxer delivers in total (deliveries so far + EOF drain), for transitions that end in a quiescent state:
